@@ -5,7 +5,7 @@
    [shape_ok h]: no elements while the X flag is off - true of a fresh header, of a header preset to a
    profile, and of everything Unmarshal returns. *)
 From Coq Require Import ZArith List Lia.
-From RTP Require Import Base.Res Base.ListX Model.RtpPacket Spec.OrderedMap Proofs.C05_Accessors.
+From RTP Require Import Base.Bits Base.Res Base.ListX Model.RtpPacket Spec.OrderedMap Proofs.C05_Accessors Proofs.C05_Wire.
 Import ListNotations.
 Open Scope Z_scope.
 
@@ -81,6 +81,30 @@ Theorem C05_wire : forall h id v,
                    get_extension (hr_header r) id = Some v).
 Proof. exact accepted_survives_wire. Qed.
 Print Assumptions C05_wire.
+
+(* ... and the same for EVERY header obtained from Unmarshal - a wire may name an id any number of times,
+   carry one-byte elements with id 0, and fill the block to the last of its 65535 words - and for
+   everything reachable from it by calls with ids 0..255: the invariant [exts_inv_w] carries the size of
+   the block instead of the distinctness of the ids, and SetExtension keeps it since the repair of D36 *)
+Theorem C05_wire_unmarshalled : forall buf r ops id v,
+  bytes_ok buf -> header_unmarshal_into empty_header buf = Ok r -> Forall op_ok ops ->
+  let h := fst (run model_step (hr_header r) ops) in
+  extension h = true -> get_extension h id = Some v ->
+  (header_marshal h = Err EShortBuffer /\ zlen v mod 4 <> 0 /\
+   extension_profile h <> profile_one_byte /\ ext_form (extension_profile h) <> profile_two_byte)
+  \/ (exists bs r', header_marshal h = Ok bs /\ header_unmarshal_into empty_header bs = Ok r' /\
+                    get_extension (hr_header r') id = Some v).
+Proof. exact unmarshalled_survives_wire. Qed.
+Print Assumptions C05_wire_unmarshalled.
+
+(* a wire that names id 5 twice; one value replaced, one id added, the doubled id deleted: what is left
+   comes back from the wire *)
+Example C05_wire_unmarshalled_nonvacuous :
+  let wire := [144; 96; 0; 1; 0; 0; 0; 2; 0; 0; 0; 3; 16; 0; 0; 2; 5; 1; 170; 5; 2; 187; 204; 0] in
+  exists r, header_unmarshal_into empty_header wire = Ok r /\
+    let h := fst (run model_step (hr_header r) [OSet 7 [1; 2; 3]; ODel 5; OSet 9 []]) in
+    extension h = true /\ get_extension h 7 = Some [1; 2; 3] /\ get_extension h 9 = Some [] /\ get_extension h 5 = None.
+Proof. eexists. split; [vm_compute; reflexivity|]. vm_compute. repeat split. Qed.
 
 (* the four starting states satisfy the premises *)
 Example C05_starts :
